@@ -287,6 +287,8 @@ def py_eval(r, env):
         block = np.stack([np.asarray(py_eval(a, {**env, **dict(zip(names, pt))}), dtype=float)
                           for pt in itertools.product(*[range(s_) for s_ in sizes])])
         return {"mean": np.mean, "var": np.var, "std": np.std}[op](block, axis=0)
+    if t == "matmul":
+        return np.asarray(np.matmul(py_eval(r[1], env), py_eval(r[2], env)), dtype=float)
     if t == "getsugar":
         a = py_eval(r[1], env)
         index = []
@@ -1094,6 +1096,61 @@ def run_independent_echo(ctx, cases):
                 ctx.count("lazy:independent:three-way-" + ("equal" if ok3 else "DIFFERENT"))
 
 
+def stream_binary_orders(ctx):
+    """Every binary-op family on operand pairs whose SHARED named inputs come in every relative order (all
+    permutations of <= 3 shared inputs), mostly with ALL-EQUAL sizes (then a skipped alignment is silent: right
+    inputs and shape, wrong numbers), plus subset / disjoint / extra-own-input patterns: pointwise, comparison,
+    matmul over (n,)@(n,), (n,m)@(m,), (n,)@(n,m), (n,m)@(m,k), getitem by an index tensor, einsum, ops.stack, ops.cat."""
+    rng = ctx.rng
+    names = ["i", "j", "k"]
+    cases = []
+
+    def tens(order, sizes, ev, dtype="real"):
+        ins = tuple((n, sizes[n]) for n in order)
+        full = tuple(s_ for _, s_ in ins) + tuple(ev)
+        cnt = int(np.prod(full)) if full else 1
+        if dtype == "real":
+            data = np.array([rng.choice([-2, -1, 0, 1, 2, 3, 4]) for _ in range(cnt)], dtype=np.float64).reshape(full)
+        else:
+            data = np.array([rng.randrange(dtype) for _ in range(cnt)], dtype=np.int64).reshape(full)
+        return ("tensor", ins, dtype, tuple(ev), data)
+
+    patterns = []
+    for k in (1, 2, 3):
+        shared = names[:k]
+        for perm in itertools.permutations(shared):
+            patterns.append((tuple(shared), tuple(perm)))
+    patterns += [(("i", "j", "k"), ("k", "i")), (("i", "j"), ("j", "k", "i")), (("j", "i"), ("i",)), (("i",), ("j",)),
+                 (("k", "i", "j"), ("j", "i", "k")), ((), ("j", "i"))]
+    size_sets = [{"i": 2, "j": 2, "k": 2}, {"i": 3, "j": 3, "k": 3}, {"i": 2, "j": 3, "k": 2}]
+    for lo, ro in patterns:
+        for sizes in size_sets:
+            sh = [n for n in lo if n in ro]
+            differs = [n for n in lo if n in ro] != [n for n in ro if n in lo]
+            equal = len({sizes[n] for n in sh}) <= 1
+            tag = "shared-different-order-equal-sizes" if differs and equal else (
+                "shared-different-order" if differs else "same-order-or-disjoint")
+            fams = []
+            for op in ("add", "mul", "sub", "max"):
+                fams.append(("binary", op, tens(lo, sizes, ()), tens(ro, sizes, ())))
+            fams.append(("binary", "add", tens(lo, sizes, (2,)), tens(ro, sizes, (1, 2))))
+            for op in ("lt", "eq"):
+                fams.append(("cmp", op, tens(lo, sizes, ()), tens(ro, sizes, ())))
+            for ea, eb in (((2,), (2,)), ((2, 2), (2,)), ((2,), (2, 2)), ((2, 3), (3, 2)), ((3, 3), (3, 3))):
+                fams.append(("matmul", tens(lo, sizes, ea), tens(ro, sizes, eb)))
+            fams.append(("getitem", tens(lo, sizes, (3,)), tens(ro, sizes, (), 3)))
+            fams.append(("getsugar", tens(lo, sizes, (2, 3)), (("s",), ("r", tens(ro, sizes, (), 3)))))
+            fams.append(("einsum", "az,z->a", (tens(lo, sizes, (2, 3)), tens(ro, sizes, (3,)))))
+            fams.append(("einsum", "ab,bc->ac", (tens(lo, sizes, (2, 2)), tens(ro, sizes, (2, 2)))))
+            fams.append(("opstack", (tens(lo, sizes, (2,)), tens(ro, sizes, (2,)))))
+            fams.append(("opcat", (tens(lo, sizes, (1, 2)), tens(ro, sizes, (2, 2)))))
+            for r in fams:
+                cases.append(Case("border", r))
+                ctx.count(f"border:{tag}")
+    ctx.count("border:enumerated", len(cases))
+    return cases
+
+
 def stream_getitem_enum(ctx):
     """getitem at EVERY offset, enumerated: event shapes incl. square ones x tensors with 0-2 named inputs (sizes
     equal to event sizes) x index kind (number, fresh variable, variable that is an input of a sibling, index
@@ -1285,6 +1342,7 @@ def correspond(ctx):
     run_cases(ctx, stream_bitwise(ctx, 120 if quick else 3000))
     run_cases(ctx, stream_slice_compose(ctx))
     run_cases(ctx, stream_getitem_enum(ctx))
+    run_cases(ctx, stream_binary_orders(ctx))
     run_phi(ctx, 400 if quick else 8000)
     run_outred(ctx, quick)
     run_named_agg(ctx, quick)
